@@ -61,3 +61,30 @@ inline int run(const std::function<void()> &reset,
 inline const char *bit(bool b) { return b ? "1" : "0"; }
 
 }  // namespace vh
+
+
+// ---- allocation faults (opt in with #define VH_ALLOC_FAULTS before including this header, in ONE translation unit):
+// global operator new / new[] are replaced by malloc-based ones (ASan still sees every block through malloc/free) that
+// throw std::bad_alloc when the armed countdown reaches zero: vh::failAllocIn = n makes the n-th allocation from now
+// fail (on the calling thread); 0 = disarmed. vh::allocFaultsFired counts how often a fault fired.
+#ifdef VH_ALLOC_FAULTS
+#include <new>
+#include <cstdlib>
+namespace vh {
+static thread_local long failAllocIn = 0;
+static long allocFaultsFired = 0;
+inline void *faultyAlloc(std::size_t n)
+{
+  if (failAllocIn > 0 && --failAllocIn == 0) { ++allocFaultsFired; throw std::bad_alloc(); }
+  void *p = std::malloc(n ? n : 1);
+  if (!p) throw std::bad_alloc();
+  return p;
+}
+}  // namespace vh
+void *operator new(std::size_t n) { return vh::faultyAlloc(n); }
+void *operator new[](std::size_t n) { return vh::faultyAlloc(n); }
+void operator delete(void *p) noexcept { std::free(p); }
+void operator delete[](void *p) noexcept { std::free(p); }
+void operator delete(void *p, std::size_t) noexcept { std::free(p); }
+void operator delete[](void *p, std::size_t) noexcept { std::free(p); }
+#endif
